@@ -93,3 +93,185 @@ Example C08_nonvacuous :
   fold_view cs = [("a"%string, mkF 4 0 0)] /\
   c_list fr_filter s2 None (Some (interp_pred (PFieldGe Fa 2))) = [("a"%string, mkF 4 0 0)].
 Proof. vm_compute. auto. Qed.
+
+(* ====================================================================================== *)
+(* include on EVERY change kind (REPLACE from the lossy merge stage included) and the       *)
+(* end-to-end law for BOTH delivery modes.  Changes are C09's token changes                 *)
+(* (Excess/Change.v): ids, values, times are opaque; predicates are arbitrary functions;    *)
+(* the lossy pipeline is C09's state machine m_run (reused) followed by include; a schedule *)
+(* is any list of Send / Recv actions (any number of ids, any reader pace).                 *)
+(* ====================================================================================== *)
+From SC Require Import Excess.Change Excess.MergeExcess Resource.Include Resource.IncludeProofs
+  Gen.IncludeTable Resource.IncludeTableProofs.
+
+(* the decision table for every kind: the kind plays no part in the decision *)
+Theorem C08_include_every_kind : forall (f : ipred) (c : change),
+  x_include (Some f) c =
+  match tpresent (cold c) && f (cid c) (cold c), tpresent (cnew c) && f (cid c) (cnew c) with
+  | true, true => Some c
+  | false, false => None
+  | false, true => Some (mkChange (cid c) K_ADD None (cnew c) (ctime c) (cseed c) false)
+  | true, false => Some (mkChange (cid c) K_REMOVE (cold c) None (ctime c) false false)
+  end.
+Proof. exact x_include_table. Qed.
+
+(* REPLACE = REMOVE + re-ADD merged for a reader that is behind: matching -> non-matching must be
+   a REMOVE, non-matching -> matching an ADD *)
+Theorem C08_replace_decisions : forall (f : ipred) i o n t sd la,
+  x_include (Some f) (mkChange i K_REPLACE (Some o) (Some n) t sd la) =
+  match f i (Some o), f i (Some n) with
+  | true, true => Some (mkChange i K_REPLACE (Some o) (Some n) t sd la)
+  | false, false => None
+  | false, true => Some (mkChange i K_ADD None (Some n) t sd false)
+  | true, false => Some (mkChange i K_REMOVE (Some o) None t false false)
+  end.
+Proof. exact replace_decisions. Qed.
+
+(* one step: for a legal edit c of an id holding x, what include returns is a legal edit of the
+   FILTERED collection (ADD only of what it lacks; UPDATE/REPLACE/REMOVE only of what it has, with
+   the value it has as old value) leading to the filtered new state; nothing returned = the
+   filtered collection did not change *)
+Theorem C08_include_step_law : forall inc c x, valid_at c x = true ->
+  let w := Include.shown inc (cid c) x in
+  match x_include inc c with
+  | Some o => cid o = cid c /\ valid_at o w = true /\ result o w = Include.shown inc (cid c) (result c x)
+  | None => w = Include.shown inc (cid c) (result c x)
+  end.
+Proof. exact include_step_law. Qed.
+
+(* (a) backpressure: every history (valid edit script from any contents v0), any predicate: the
+   filtered stream is an edit script of the filtered collection and folds to it *)
+Theorem C08_backpressure_fold_is_filtered : forall inc sent v0, valid_script sent v0 = true ->
+  valid_script (bp_stream inc sent) (filtered inc v0) = true /\
+  forall i, Change.fold_view (bp_stream inc sent) (filtered inc v0) i = filtered inc (Change.fold_view sent v0) i.
+Proof. exact bp_filtered_fold. Qed.
+
+(* (b) lossy, at every moment of every schedule: what the filtered subscriber has received is an
+   edit script of the filtered collection whose fold is the filter of the unfiltered lossy view *)
+Theorem C08_lossy_fold_any_schedule : forall inc l v0,
+  no_close l = true -> valid_script (sent_of l) v0 = true ->
+  let got := got_of (snd (m_run m_init l)) in
+  valid_script (lossy_stream inc l) (filtered inc v0) = true /\
+  forall i, Change.fold_view (lossy_stream inc l) (filtered inc v0) i = filtered inc (Change.fold_view got v0) i.
+Proof. exact lossy_filtered_fold. Qed.
+
+(* (b) lossy, end to end: once the reader has drained, the fold is the filtered collection after
+   the whole history -- List with the same predicate *)
+Theorem C08_lossy_drained_fold_is_filtered_list : forall inc l v0,
+  no_close l = true -> valid_script (sent_of l) v0 = true ->
+  let n := List.length (queue (fst (m_run m_init l))) in
+  let l' := l ++ repeat Recv n in
+  valid_script (lossy_stream inc l') (filtered inc v0) = true /\
+  forall i, Change.fold_view (lossy_stream inc l') (filtered inc v0) i = filtered inc (Change.fold_view (sent_of l) v0) i.
+Proof. exact lossy_drained_fold. Qed.
+
+(* a reader that keeps up sees exactly the backpressured stream *)
+Theorem C08_lossy_prompt_reader_is_backpressure : forall inc cs,
+  lossy_stream inc (flat_map (fun c => [Send c; Recv]) cs) = bp_stream inc cs.
+Proof. exact lossy_prompt_reader_is_backpressure. Qed.
+
+(* the generated table (the real include on all kinds x nil-ness x predicate answers x seed flags):
+   the code is the model on every row, every legal row obeys the fold law, the table is complete,
+   include never edits its input *)
+Theorem C08_table_matches_model : forallb row_matches_model include_rows = true.
+Proof. exact include_table_matches_model. Qed.
+Theorem C08_table_obeys_law : forallb row_obeys_law include_rows = true.
+Proof. exact include_table_obeys_law. Qed.
+Theorem C08_table_complete :
+  forallb (fun k => forallb (fun o => forallb (fun n => forallb (fun pin => forallb (fun pn =>
+  forallb (fun pnil => forallb (fun sd => forallb (fun la => has_row k o n pin pn pnil sd la)
+  bools) bools) bools) bools) bools) bools) bools) [0; 1; 2; 3; 4; 5] = true.
+Proof. exact include_table_complete. Qed.
+Theorem C08_table_input_untouched : include_rows_mutated = [].
+Proof. exact include_table_input_untouched. Qed.
+
+Print Assumptions C08_include_every_kind.
+Print Assumptions C08_replace_decisions.
+Print Assumptions C08_include_step_law.
+Print Assumptions C08_backpressure_fold_is_filtered.
+Print Assumptions C08_lossy_fold_any_schedule.
+Print Assumptions C08_lossy_drained_fold_is_filtered_list.
+Print Assumptions C08_lossy_prompt_reader_is_backpressure.
+Print Assumptions C08_table_matches_model.
+Print Assumptions C08_table_obeys_law.
+Print Assumptions C08_table_complete.
+Print Assumptions C08_table_input_untouched.
+
+(* the hypotheses are satisfiable and the REPLACE path is exercised: REMOVE + re-ADD of id 0 while
+   the reader is behind (the Pull goroutine holds the change of id 1), old version matching, new
+   one not: include is handed a REPLACE, the subscriber gets a REMOVE *)
+Example C08_nonvacuous_lossy_replace :
+  let p : ipred := fun _ v => match v with Some t => 3 <=? t | None => false end in
+  let v0 : view := fun i => if i =? 0 then Some 5 else if i =? 1 then Some 7 else None in
+  let l := [Send (mkChange 1 K_UPDATE (Some 7) (Some 8) 10 false false); Recv;
+            Send (mkChange 0 K_REMOVE (Some 5) None 11 false false);
+            Send (mkChange 0 K_ADD None (Some 1) 12 false false); Recv] in
+  valid_script (sent_of l) v0 = true /\
+  got_of (snd (m_run m_init l)) =
+    [mkChange 1 K_UPDATE (Some 7) (Some 8) 10 false false; mkChange 0 K_REPLACE (Some 5) (Some 1) 12 false false] /\
+  lossy_stream (Some p) l =
+    [mkChange 1 K_UPDATE (Some 7) (Some 8) 10 false false; mkChange 0 K_REMOVE (Some 5) None 12 false false] /\
+  Change.fold_view (lossy_stream (Some p) l) (filtered (Some p) v0) 0 = None.
+Proof. exact lossy_replace_stops_matching. Qed.
+
+(* ====================================================================================== *)
+(* The same end-to-end law on messages: any message algebra M, read mask, include predicate *)
+(* (any function of id and message).  A value token stands for a message (tok, the heap of  *)
+(* stored messages), a numbered id for a string id (idn).  The subscriber folds the stream   *)
+(* with Pull.apply_change; List is Impl.c_list.                                             *)
+(* ====================================================================================== *)
+From SC Require Import Resource.IncludeDenote Resource.IncludeDenoteProofs.
+
+Section C08_messages.
+  Variable M : Type.
+  Variable rmask : Type.
+  Variable r_filter : rmask -> M -> M.
+  Variable tok : Z -> M.
+  Variable idn : Z -> string.
+  Variable str_ltb : string -> string -> bool.
+  Hypothesis ltb_irrefl : forall a, str_ltb a a = false.
+  Hypothesis ltb_trans : forall a b c, str_ltb a b = true -> str_ltb b c = true -> str_ltb a c = true.
+  Hypothesis idn_inj : forall i j, idn i = idn j -> i = j.
+  Variable ro : ropts M rmask.
+
+  (* include on tokens IS the include of Pull.v (the model run against the code with backpressure) *)
+  Theorem C08_include_is_pull_include : forall c,
+    option_map (d_change tok idn) (x_include (t_inc tok idn ro) c) =
+    include_gen false false (ro_include ro) (d_change tok idn c).
+  Proof. apply include_denotes. Qed.
+
+  Variable v0 : Change.view.                    (* contents when the subscription starts *)
+  Variable view0 : list (string * M).           (* the subscriber's view after the seed *)
+  Hypothesis seed_ok : @rep M rmask r_filter tok idn ro view0 (filtered (t_inc tok idn ro) v0).
+  Variable s' : cstate M.                       (* the collection after the history *)
+  Hypothesis s'_sorted : sorted str_ltb (c_items s').
+
+  (* (a) with backpressure *)
+  Theorem C08_backpressure_fold_is_list_M : forall sent,
+    valid_script sent v0 = true ->
+    (forall i, option_map (@it_body M) (lookup (idn i) (c_items s')) = option_map tok (Change.fold_view sent v0 i)) ->
+    forall i, vlookup (idn i) (fold_left (@apply_change M) (bp_stream_M r_filter tok idn ro sent) view0) =
+              vlookup (idn i) (c_list r_filter s' (ro_mask ro) (ro_include ro)).
+  Proof. eapply bp_fold_is_list_M; eassumption. Qed.
+
+  (* (b) without backpressure: any schedule of publishes and receives, then the reader drains *)
+  Theorem C08_lossy_fold_is_list_M : forall l,
+    no_close l = true -> valid_script (sent_of l) v0 = true ->
+    (forall i, option_map (@it_body M) (lookup (idn i) (c_items s')) = option_map tok (Change.fold_view (sent_of l) v0 i)) ->
+    let n := List.length (queue (fst (m_run m_init l))) in
+    forall i, vlookup (idn i) (fold_left (@apply_change M) (lossy_stream_M r_filter tok idn ro (l ++ repeat Recv n)) view0) =
+              vlookup (idn i) (c_list r_filter s' (ro_mask ro) (ro_include ro)).
+  Proof. eapply lossy_fold_is_list_M; eassumption. Qed.
+End C08_messages.
+
+Print Assumptions C08_include_is_pull_include.
+Print Assumptions C08_backpressure_fold_is_list_M.
+Print Assumptions C08_lossy_fold_is_list_M.
+
+(* the representation hypothesis is satisfiable: an empty collection and an empty view, any predicate *)
+Example C08_nonvacuous_rep : forall (M rmask : Type) (r_filter : rmask -> M -> M) tok idn (ro : ropts M rmask),
+  @rep M rmask r_filter tok idn ro [] (filtered (t_inc tok idn ro) empty_view).
+Proof.
+  intros. split; [constructor|]. intros i. unfold filtered, Include.shown, empty_view.
+  destruct (t_inc tok idn ro); reflexivity.
+Qed.
